@@ -262,7 +262,41 @@ func SynGrammar(o SynOpts) *rapid.Generator[*gr.Grammar] {
 				b.prods[tgt].Alts = append(b.prods[tgt].Alts, gr.Alt_{Syms: []gr.Sym{b.term(), nt(nm)}})
 			}
 		}
-		if o.ErrorAlts {
+		if o.ErrorAlts && b.nNT+1 < len(ntNames) && rapid.IntRange(0, 2).Draw(t, "errList") == 0 {
+			// the classical idiom: a (possibly empty) list of statements, one of
+			// whose alternatives starts with error and ends in a synchronising token
+			ln, lpi := b.newNT()
+			sn, spi := b.newNT()
+			sync := b.term()
+			var stAlts []gr.Alt_
+			stAlts = append(stAlts, gr.Alt_{Error: true, Syms: []gr.Sym{sync}})
+			nOk := rapid.IntRange(1, 2).Draw(t, "stmtAlts")
+			for k := 0; k < nOk; k++ {
+				stAlts = append(stAlts, gr.Alt_{Syms: []gr.Sym{b.term(), sync}})
+			}
+			b.prods[spi].Alts = rapid.Permutation(stAlts).Draw(t, "stmtOrder")
+			switch rapid.IntRange(0, 3).Draw(t, "listShape") {
+			case 0:
+				b.prods[lpi].Alts = []gr.Alt_{{Syms: []gr.Sym{nt(ln), nt(sn)}}, {Empty: true}}
+			case 1:
+				b.prods[lpi].Alts = []gr.Alt_{{Syms: []gr.Sym{nt(sn), nt(ln)}}, {Empty: true}}
+			case 2:
+				b.prods[lpi].Alts = []gr.Alt_{{Syms: []gr.Sym{nt(ln), nt(sn)}}, {Syms: []gr.Sym{nt(sn)}}}
+			default:
+				b.prods[lpi].Alts = []gr.Alt_{{Empty: true}, {Syms: []gr.Sym{nt(ln), nt(sn)}}}
+			}
+			// the list becomes the start symbol, or is hung below the old start
+			if rapid.Bool().Draw(t, "listIsStart") {
+				np := []gr.Prod{b.prods[lpi], b.prods[spi]}
+				np = append(np, b.prods[:lpi]...)
+				b.prods = np
+				if rapid.Bool().Draw(t, "useOldStart") && len(b.prods) > 2 {
+					b.prods[1].Alts = append(b.prods[1].Alts, gr.Alt_{Syms: []gr.Sym{nt(b.prods[2].Name), sync}})
+				}
+			} else {
+				b.prods[0].Alts = append(b.prods[0].Alts, gr.Alt_{Syms: []gr.Sym{b.term(), nt(ln)}})
+			}
+		} else if o.ErrorAlts {
 			n := rapid.IntRange(1, 2).Draw(t, "nErr")
 			for i := 0; i < n; i++ {
 				pi := rapid.IntRange(0, len(b.prods)-1).Draw(t, "errProd")
